@@ -153,3 +153,51 @@ def areal_just_above_maxpos(c):
 def areal_wider_than_source_word(c):
     n = cfg_ints(c)[0]
     return (c['opname'] == 'from_f32' and n > 32) or (c['opname'] == 'from_f64' and n > 64)
+
+
+@pred
+def posit_to_int_rounds(c):
+    i, m = ints(c['impl']), ints(c['model'])
+    if len(i) != 1 or len(m) != 1:
+        return False
+    w = ints(c['args'])[0]
+    d = (i[0] - m[0]) % (1 << w)
+    return d in (1, (1 << w) - 1)
+
+
+@pred
+def areal_snan_roundtrip(c):
+    n = cfg_ints(c)[0]
+    a = ints(c['args'])[0]
+    return a == (1 << n) - 1
+
+
+def _cf_value(c, x):
+    """exact value of a finite cfloat encoding as a Fraction (None for inf/nan)"""
+    from fractions import Fraction
+    n, es, sub, sup, sat, fb = _cf(c)
+    m = _mag(n, x); s = x >> (n - 1); e = m >> fb; f = m & ((1 << fb) - 1)
+    if e == (1 << es) - 1 and (not sup or m >= (1 << (n - 1)) - 2):
+        return None
+    bias = (1 << (es - 1)) - 1
+    if e == 0:
+        v = Fraction(f, 1 << fb) * Fraction(2) ** (1 - bias) if sub else Fraction(0)
+    else:
+        v = (1 + Fraction(f, 1 << fb)) * Fraction(2) ** (e - bias)
+    return -v if s else v
+
+
+@pred
+def cfloat_to_int_via_float(c):
+    """int(cfloat) is computed as int(float(x)): wrong when the value needs more than 24 significant bits"""
+    n, es, sub, sup, sat, fb = _cf(c)
+    w, x = ints(c['args'])[:2]
+    v = _cf_value(c, x)
+    i = ints(c['impl'])
+    if v is None or len(i) != 1 or fb <= 23:
+        return False
+    try:
+        f32 = struct.unpack('<f', struct.pack('<f', float(v)))[0]
+    except OverflowError:
+        return False
+    return (int(f32) % (1 << w)) == i[0]
